@@ -519,6 +519,23 @@ def check_pairing(E):
         if not want and item_param:
             want = {item_param}
         node, ok, cands = post_dominating_reload(f, st, want)
+        if not ok:
+            # a reload of the whole section the hooked item was looked up in covers it
+            secs = set()
+            for d in local_defs(f, want):
+                for x in ast.walk(d):
+                    if isinstance(x, ast.Subscript) and isinstance(x.value, ast.Attribute) and x.value.attr == E.cmi.table_attr \
+                            and E.cmi.member_of(x.slice):
+                        secs.add(E.cmi.member_of(x.slice))
+            cfg = CFG(f.node)
+            for n in walk_no_nested(f.node):
+                if isinstance(n, ast.Call) and isinstance(n.func, ast.Attribute) and n.func.attr == "reload" and not n.args:
+                    r = n.func.value
+                    if isinstance(r, ast.Subscript) and isinstance(r.value, ast.Attribute) and r.value.attr == E.cmi.table_attr \
+                            and E.cmi.member_of(r.slice) in secs:
+                        rs = enclosing_stmt(n)
+                        if rs in cfg.g and rs is not st and cfg.reachable(st, rs) and cfg.every_path_passes(st, cfg.exit, [rs]):
+                            node, ok = n, True
         if not ok and want == {item_param} and self_reload.get(w):
             ok = True  # the hooked object is the item itself and its set_name reloads it right after this call
         ctx.count("pairings")
